@@ -281,6 +281,7 @@ def parseAllWith (ts : List Kind) (fuel : Nat) : Parsed :=
   let (s, d, es, af, oof) := parseLoop ts fuel budget (initState ts) 0 [] false
   { nodes := s.out.reverse, decls := d, errors := es, assertFailed := af, outOfFuel := oof }
 
-def parseAll (ts : List Kind) : Parsed := parseAllWith ts (4 * ts.length + 64)
+/-- six stack frames per token position suffice (`Props/C15.lean: parse_total`) -/
+def parseAll (ts : List Kind) : Parsed := parseAllWith ts (6 * ts.length + 8)
 
 end Flat
